@@ -187,6 +187,9 @@ class SshHostKeyDSSBase(SshHostKeyBase):
     def _parse_host_key(cls, parser):
         for param_name in ['p', 'q', 'g', 'y']:
             parser.parse_ssh_mpint(param_name)
+        if parser['p'] <= 0:
+            # the size of a key is the size of its prime, there is none unless it is positive
+            raise InvalidValue(parser['p'], cls, 'p')
 
         public_key = PublicKey.from_params(PublicKeyParamsDsa(
             prime=parser['p'],
@@ -246,6 +249,9 @@ class SshHostKeyRSABase(SshHostKeyBase):
     def _parse_host_key(cls, parser):
         parser.parse_ssh_mpint('e')
         parser.parse_ssh_mpint('n')
+        if parser['n'] <= 0:
+            # the size of a key is the size of its modulus, there is none unless it is positive
+            raise InvalidValue(parser['n'], cls, 'n')
 
         public_key = PublicKey.from_params(PublicKeyParamsRsa(
             modulus=parser['n'],
